@@ -36,7 +36,7 @@ CHECKS.update({
                   "position, with force on or off, returns Thrown OutOfRange together with exactly the state it was given; resize-to-fewer, unforced setEdgeLabel and getEdgeLabel on a "
                   "missing edge give InvalidArgument with the state unchanged; vertex-taking observers raise OutOfRange. Tied to /repo by histories interleaving valid and rejected calls "
                   "(size, size+1, UINT_MAX; every position; both flag values; out-of-range queries of every observer) under ASan+UBSan, all observers compared after every call. "
-                  "PARTIAL with respect to the property text: subgraph extraction and the path searches are covered under C10/C11/C12 once their models are in (see DESIGN.md).",
+                  "C07_path_searches_reject / C07_subgraph_rejects extend this to every path search (source and destination positions) and both subgraph functions.",
              note=TB + "Out-of-bounds reads/writes themselves are a runtime notion: the model proves 'Thrown, state unchanged'; a sanitizer abort of the harness is reported as a violation.",
              tech="Coq proof (rejected call = Thrown + identical state, all states) + differential correspondence under ASan/UBSan", ref="DESIGN.md §6 C07"),
  'C16': dict(text="Theorems C16_* (Coq), on the weak invariant kept by forced insertions: addEdge(force=true) adds exactly one copy (list multiplicity and edge count +1, hasEdge true, label "
